@@ -44,6 +44,19 @@ func CallAliased(op string, ctx *apd.Context, x, y dec.D, aux int64, pattern int
 		ay = ax
 		d = ax
 	}
+	res, err := callOn(op, ctx, d, ax, ay, aux)
+	o = Outcome{Res: br.FromApd(d), Flags: res, Err: err, Raw: d}
+	if d != ax {
+		xAfter = ax
+	}
+	if binary && d != ay && ay != ax {
+		yAfter = ay
+	}
+	return
+}
+
+// callOn runs op on the given objects.
+func callOn(op string, ctx *apd.Context, d, ax, ay *apd.Decimal, aux int64) (apd.Condition, error) {
 	var res apd.Condition
 	var err error
 	switch op {
@@ -94,12 +107,5 @@ func CallAliased(op string, ctx *apd.Context, x, y dec.D, aux int64, pattern int
 	default:
 		panic("CallAliased: " + op)
 	}
-	o = Outcome{Res: br.FromApd(d), Flags: res, Err: err, Raw: d}
-	if d != ax {
-		xAfter = ax
-	}
-	if binary && d != ay && ay != ax {
-		yAfter = ay
-	}
-	return
+	return res, err
 }
